@@ -179,6 +179,8 @@ def build_tree(ctx, case):
 
 def text_of(root):
     try:
+        if has_huge_constant(root):
+            return "<tree with a constant beyond 10^10>"
         return str(root)
     except Exception as e:
         return f"<unprintable: {type(e).__name__}>"
